@@ -21,6 +21,7 @@ import (
 	"testing"
 	"time"
 
+	"github.com/robustirc/robustirc/internal/ircserver"
 	"github.com/robustirc/robustirc/internal/robust"
 )
 
@@ -252,6 +253,74 @@ func TestVerifC11Open(t *testing.T) {
 		}
 		n.Stop()
 		os.RemoveAll(dir)
+	}
+	b, _ := json.Marshal(res)
+	if o := os.Getenv("VERIF_OUT"); o != "" {
+		os.WriteFile(o, b, 0644)
+	} else {
+		fmt.Println(string(b))
+	}
+}
+
+// TestVerifC11Body: the session a message is applied to is the one whose secret the request carried -- nothing
+// in the request BODY can redirect it.  The attacker posts on its own session with its own correct secret; the
+// body carries, next to Data and ClientMessageId, every other member of the replicated message structure
+// (Session, Id, Type, RemoteAddr, UnixNano, Revision, Servers) naming the victim.
+func TestVerifC11Body(t *testing.T) {
+	shard, _ := strconv.Atoi(os.Getenv("VERIF_SHARD"))
+	res := &vSeqResult{EndStates: map[string]int{}}
+	sigs := map[string]*vViol{}
+	if shard == 0 {
+		n, err := vStartNode(t.TempDir()+"/b", true)
+		if err != nil {
+			t.Fatal(err)
+		}
+		if r := n.setConfig(vCfgFast); r.Code != 200 {
+			t.Fatalf("config: %d %s", r.Code, r.Body)
+		}
+		A, _ := n.createSession()
+		n.post(A, "NICK attacker", 11)
+		n.post(A, "USER a 0 * :a", 12)
+		T, _ := n.createSession()
+		n.post(T, "NICK victim", 21)
+		n.post(T, "USER t 0 * :t", 22)
+		bodies := []string{
+			`{"Data":"NICK hijacked1","ClientMessageId":101,"Session":{"Id":%d,"Reply":0}}`,
+			`{"Data":"NICK hijacked2","ClientMessageId":102,"Session":{"Id":%d},"Id":{"Id":%d},"Type":2,"RemoteAddr":"6.6.6.6","UnixNano":1}`,
+			`{"Data":"NICK hijacked4","ClientMessageId":104,"Type":1,"Session":{"Id":%d}}`,
+			`{"Data":"NICK hijacked5","ClientMessageId":105,"Type":6,"Revision":99,"Session":{"Id":%d}}`,
+			`{"Data":"QUIT :bye","ClientMessageId":103,"session":{"id":%d}}`,
+		}
+		for k, tmpl := range bodies {
+			body := strings.ReplaceAll(tmpl, "%d", strconv.FormatUint(T.Num, 10))
+			before := len(n.logEntries())
+			markerT := ircserver.VerifMarker(ircServer, robust.Id{Id: T.Num})
+			r := n.do("POST", "/robustirc/v1/"+A.Id+"/message", map[string]string{"X-Session-Auth": A.Auth}, body)
+			res.Ops++
+			res.EndStates[fmt.Sprintf("body %d -> %d", k, r.Code)]++
+			seq := []string{"c11body", strconv.Itoa(k)}
+			ts, err := ircServer.GetSession(robust.Id{Id: T.Num})
+			if err != nil {
+				res.report(sigs, "C11", "a POST on the attacker's own session ended another session (Session member in the body)", fmt.Sprintf("body %s: %v", body, err), seq)
+				break
+			}
+			if ts.Nick != "victim" {
+				res.report(sigs, "C11", "a POST on the attacker's own session was applied to another session (Session member in the body)", fmt.Sprintf("body %s: the victim's nickname is now %q", body, ts.Nick), seq)
+			}
+			if m := ircserver.VerifMarker(ircServer, robust.Id{Id: T.Num}); m != markerT {
+				res.report(sigs, "C11", "a POST on the attacker's own session moved another session's duplicate-detection marker", fmt.Sprintf("body %s: %d -> %d", body, markerT, m), seq)
+			}
+			for _, e := range n.logEntries()[before:] {
+				if e.Session.Id != A.Num || e.Type != robust.IRCFromClient {
+					res.report(sigs, "C11", "a POST was committed with a session or type taken from the request body", fmt.Sprintf("body %s: committed entry has session %d (authenticated: %d), type %v", body, e.Session.Id, A.Num, e.Type), seq)
+				}
+				if e.RemoteAddr == "6.6.6.6" {
+					res.report(sigs, "C11", "a POST was committed with the client address taken from the request body", fmt.Sprintf("body %s", body), seq)
+				}
+			}
+		}
+		res.Sequences++
+		n.Stop()
 	}
 	b, _ := json.Marshal(res)
 	if o := os.Getenv("VERIF_OUT"); o != "" {
